@@ -1,5 +1,6 @@
 import BPT.Rust.ValidatorSound
 import BPT.Rust.BranchReach
+import BPT.Rust.CheckedSpec
 import BPT.Generated.Tie
 /-
   C14 — Rust validators reject every documented kind of structural damage.
@@ -262,6 +263,22 @@ theorem detailed_rejects_what_basic_rejects (m : RawMap K V) (h : m.checkInvaria
   | panic => rw [h1] at hd; simp at hd
   | diverge => rw [h1] at hd; simp at hd
   | ub => rw [h1] at hd; simp at hd
+
+/-- `try_insert` / `try_remove` / `batch_insert` / `validate_for_operation` on a map the detailed validation rejects: they
+    return a data-integrity error at their first statement, before anything is written (`checkedEntry`); for a typed
+    state this is `refuse_unchanged`: the returned map is the one passed in -/
+theorem checked_mutators_refuse (m : RawMap K V) (h : m.checkDetailed Cfg.repaired ≠ .ok none) :
+    checkedEntry Cfg.repaired m = some .dataIntegrity :=
+  checkedEntry_refuses Cfg.repaired m h
+
+theorem checked_mutators_leave_unchanged (cfg : Cfg) (s : RState K V) (h : (view s).checkDetailed cfg ≠ .ok none) (k : K) (v : V)
+    (rest : List (K × V)) :
+    tryInsert cfg s k v = some (s, .error .dataIntegrity) ∧ tryRemove cfg s k = some (s, .error .dataIntegrity) ∧
+    batchInsert cfg s ((k, v) :: rest) = some (s, .error .dataIntegrity) ∧ validateForOperation cfg s = .error .dataIntegrity := by
+  apply refuse_unchanged
+  unfold validOk
+  rw [checkedEntry_refuses cfg (view s) h]
+  rfl
 
 /-! ### D3 as found: an emptied non-root leaf passed both validators -/
 
